@@ -31,6 +31,12 @@ Quadrature routes and sizes: every random model is evaluated with the rule asked
       afterwards, through set_num_gauss(n) on the same object; n walks through the size classes 1, 2-4, 5-8, 9-16, 17-32,
       33-64; Trace_Emission reports the (route, class) cells and decades of x a trace does not cover (machinery failure).
 TLC runs are started ahead (class Prefetch) and consumed in order; the design-level runs are checked at the end.
+Settings walks (spec/EmissionSettings.tla, harness/fx_emsettings.py): TLC-generated walks over the SETTINGS of one long-lived
+      model -- planet radius through model['planet_radius'] and planet.radius, star temperature, star distance, the angle
+      quadrature through set_num_gauss(n) and set_quadratures(mu, w) in any order (also: the count the object remembers asked
+      for again), the global opacity mode xsec <-> ktables -- with evaluations in between; every evaluation equals a freshly
+      built model of the CURRENT settings and, isothermal, B(T)/B(T*)(Rp/Rs)^2 of the current planet and star; expected
+      counterexamples: geometry factor computed at build, set_num_gauss skipping a "same" count, opacity branch memoised.
 History independence (spec/Functional.tla, harness/history.py): long-lived Emission / DirectImage models
       whose spectral window (equally long windows passed to model(wngrid=..)), star temperature, planet
       radius, temperature parameter and k-table set change between evaluations equal freshly built ones.
@@ -46,6 +52,7 @@ from ..core import Machinery, frac, close, validate_trace
 from .. import fx_emission as fx
 from .. import fx_ktable as fxk
 from .. import fx_emcalls as fxc
+from .. import fx_emsettings as fxs
 
 WN = [800.0, 2500.0]
 TK = {1: 600.0, 2: 1100.0, 3: 1700.0}
@@ -1002,6 +1009,46 @@ def run_histories(ctx, nwalks):
     fx.reset_all()
 
 
+# ----------------------------------------------------------------------------
+# settings walks on ONE long-lived model (spec/EmissionSettings.tla)
+# ----------------------------------------------------------------------------
+
+SETTINGS_WORLDS = dict(quick=[('emission', True), ('emission', False), ('direct', False)],
+                       thorough=[('emission', True), ('emission', False), ('direct', False)])
+
+
+def run_settings(ctx, cfg, res=None, only=None):
+    """Every exported walk (MaxSets changes of a setting, evaluations in between or not, every start quadrature / mode)
+    on every world of the tier."""
+    if res is None:
+        res = ctx.check_spec('settings-walks', 'MC_EmissionSettings', cfg, workers=1, deque=True)
+    walks = res.tagged('SWALK')
+    # what makes the remembered state observable: both quadrature routes in one walk in both orders, the count of the start
+    # asked for again after a user rule, a mode switch after an evaluation, a radius change through both routes
+    def has(w, *names):
+        sets = [s[1] for s in w['walk'] if s[0] == 'set']
+        return sets == list(names)
+    need = [any(has(w, 'quadratures', 'num_gauss') and w['init']['quad'] == ['gauss', w['walk'][1][3]] for w in walks),
+            any(has(w, 'num_gauss', 'quadratures') for w in walks),
+            any(has(w, 'mode', 'mode') and w['walk'][1][0] == 'eval' for w in walks),
+            any(has(w, 'rp', 'mode') for w in walks), any(has(w, 'mode', 'rp') for w in walks),
+            {s[2] for w in walks for s in w['walk'] if s[1] == 'rp'} >= {'param', 'attr'},
+            {w['init']['mode'] for w in walks} >= {'xsec', 'ktables'}]
+    if len(walks) < 300 or not all(need):
+        raise Machinery('%s exports too few settings walks (%d; coverage %r)' % (cfg, len(walks), need))
+    nev = 0
+    with fx.TempDir() as root:
+        for kind, iso in SETTINGS_WORLDS['quick' if cfg.endswith('quick.cfg') else 'thorough']:
+            if only is not None and only != (kind, iso):
+                continue
+            kd = os.path.join(root, '%s_%s' % (kind, iso))
+            os.makedirs(kd)
+            nev += fxs.run_world(ctx, fxs.World(kind, iso, kd, ctx.seed), walks, code_raised, cfg)
+    ctx.add_sample(dict(settings_walk=walks[len(walks) // 2]))
+    fx.reset_all()
+    return nev
+
+
 class Prefetch:
     """The TLC runs of this driver are independent of one another and of the Python-side replays: they are started
     ahead (at most `width` JVMs at a time, in the order they will be needed) and their results are consumed in the
@@ -1072,6 +1119,10 @@ def run(ctx):
                       calls='every walk of 2 (quick) / 3 (thorough) public calls over {model, partial_model, model_contrib, model_full_contrib, '
                             'path_integral} on one model with 3 opacity sources (2 molecules of one contribution + a grey contribution), 2-3 layers, '
                             '3-4 source sets (transparent, zero, saturating on its own), eclipse + direct; one such walk on every random atmosphere',
+                      settings='every walk of 2 changes of a setting (planet radius by 2 routes, star temperature, star distance, set_num_gauss, '
+                               'set_quadratures, opacity_method) with or without an evaluation in between, from every start quadrature x mode, on '
+                               'emission iso / non-iso and direct-image models (7 layers, 4 wavenumbers); thorough: 3 counts, 2 user rules, '
+                               'partial_model()',
                       history='TLC-generated set/eval walks (depth 9, 3 settings x 3 values) on long-lived Emission / DirectImage models')
     ctx.assumptions = ['Planck table: plain-Python CODATA-2018 evaluation (math.expm1) in the harness; the repository kernel is compared with it pair by '
                        'pair within the rounding spec/PlanckTol.tla licenses for the documented formula, 1e-14 + 2^-52 (2/x + 4x)',
@@ -1096,6 +1147,7 @@ def _run(ctx, q, pf):
               ['EX_Emission_thorough.cfg', 'EX_Emission_quads.cfg', 'EX_Emission_thorough4.cfg']
     ip_cfg = 'EX_Emission_interp.cfg' if q else 'EX_Emission_interp_thorough.cfg'
     k_cfgs = ['EX_EmissionK_quick.cfg', 'EX_EmissionK_quick3.cfg'] if q else ['EX_EmissionK_thorough.cfg', 'EX_EmissionK_quick3.cfg']
+    s_cfg = 'EX_EmissionSettings_quick.cfg' if q else 'EX_EmissionSettings_thorough.cfg'
     c_cfgs = ['MC_EmissionCalls_quick.cfg'] if q else ['MC_EmissionCalls_thorough.cfg', 'MC_EmissionCalls_thorough3.cfg']
     exhaustive = [('exhaustive', 'MC_Emission', 'MC_Emission_%s.cfg' % ctx.tier, ('Surface', 'Layer', 'Integrate', 'Normalise')),
                   ('exhaustive-quadratures', 'MC_Emission', 'MC_Emission_quads.cfg', ())]
@@ -1103,6 +1155,9 @@ def _run(ctx, q, pf):
         exhaustive += [('exhaustive-4-layers', 'MC_Emission', 'MC_Emission_thorough4.cfg', ()),
                        # the stale-source variant satisfies every OTHER clause: only PerLayerSource (and the exact vectors) see it
                        ('consequences-blind-to-stale-source', 'MC_Emission', 'MC_Emission_refute_source_others.cfg', ())]
+    if not q:       # quick: the clauses are checked on the bounded walks of the export run
+        exhaustive += [('exhaustive-settings', 'MC_EmissionSettings', 'MC_EmissionSettings_all.cfg',
+                        ('SetPhys', 'SetNumGauss', 'SetQuadratures', 'SetMode', 'Eval'))]
     exhaustive += [('exhaustive-ktable', 'MC_EmissionK', 'MC_EmissionK_quick.cfg', ('EKEmit', 'EKIntegrate', 'EKNormalise')),
                    ('exhaustive-ktable-3-points', 'MC_EmissionK', 'MC_EmissionK_quick3.cfg', ())]
     if not q:
@@ -1125,17 +1180,21 @@ def _run(ctx, q, pf):
         pf.submit('export-' + cfg[3:-4], 'MC_EmissionK', cfg, workers=1, deque=True)
     for cfg in c_cfgs:
         pf.submit('calls-' + cfg[17:-4], 'MC_EmissionCalls', cfg, workers=1, deque=True)
+    pf.submit('settings-walks', 'MC_EmissionSettings', s_cfg, workers=1, deque=True)
     refutes = [('refute-clamp-one-side', 'MC_Emission', 'MC_Emission_refute_clamp.cfg', 'Telescoping'),
                ('refute-range-off-by-one', 'MC_Emission', 'MC_Emission_refute_range.cfg', 'IsothermalIdentity'),
                ('refute-weights', 'MC_Emission', 'MC_Emission_refute_weights.cfg', 'FluxIsothermalIdentity'),
                ('refute-source-reused-while-temperature-close', 'MC_Emission', 'MC_Emission_refute_source.cfg', 'PerLayerSource'),
                ('refute-slant-outside-k-sum', 'MC_EmissionK', 'MC_EmissionK_refute_slant.cfg', 'EKTelescoping'),
                ('refute-star-spectrum-rescaled-in-place', 'MC_EmissionCalls', 'MC_EmissionCalls_refute_sed.cfg', 'EveryPathDocumented')]
+    refutes += [('refute-geometry-factor-computed-at-build', 'MC_EmissionSettings', 'MC_EmissionSettings_refute_geometry_at_build.cfg', 'EvalUsesCurrent'),
+                ('refute-set_num_gauss-skips-remembered-count', 'MC_EmissionSettings', 'MC_EmissionSettings_refute_same_count_skipped.cfg', 'EvalUsesCurrent'),
+                ('refute-opacity-mode-memoised', 'MC_EmissionSettings', 'MC_EmissionSettings_refute_mode_memoised.cfg', 'EvalUsesCurrent')]
     if not q:
         refutes += [('refute-star-spectrum-rescaled-in-place (shared arrays)', 'MC_EmissionCalls', 'MC_EmissionCalls_refute_sed_readonly.cfg', 'InputsReadOnly'),
                     ('refute-opacity-rescaled-in-place', 'MC_EmissionCalls', 'MC_EmissionCalls_refute_opacity.cfg', 'EveryPathDocumented')]
     for label, module, cfg, inv in refutes:
-        pf.submit(label, module, cfg, workers=1 if module == 'MC_EmissionCalls' else 2, allow_violation=True)
+        pf.submit(label, module, cfg, workers=1 if module in ('MC_EmissionCalls', 'MC_EmissionSettings') else 2, allow_violation=True)
     submit_exhaustive(False)
     _tick('submitted')
 
@@ -1161,6 +1220,9 @@ def _run(ctx, q, pf):
         run_calls(ctx, cfg, cfg[17:-4], ratios, res=pf.check_spec(ctx, 'calls-' + cfg[17:-4]))
         _tick('calls ' + cfg)
     finish_direct_law(ctx, ratios)
+    # ---- settings walks
+    run_settings(ctx, s_cfg, res=pf.check_spec(ctx, 'settings-walks'))
+    _tick('settings ' + s_cfg)
     # ---- binding B
     run_traces(ctx, 60 if q else 600, 16 if q else 160, 12 if q else 120, planck=True, require_cover=True)
     _tick('traces')
@@ -1205,6 +1267,12 @@ def replay(ctx, violations):
                 run_calls(ctx, cfg, 'replay', ratios, only=(vec['kind'], list(vec['tp']), vec['sid']))
                 for r, cls, vv in [it[:3] for it in ratios]:
                     ctx.verdict('direct_image_proportional', math.isfinite(r) and r > 0, cls=cls, detail='ratio %r' % r, vector=vv)
+        elif vec.get('settings_walk'):
+            key = ('settings', vec['kind'], vec['iso'])
+            if key not in done_calls:
+                done_calls.add(key)
+                ctx.seed = vec.get('seed', ctx.seed)
+                run_settings(ctx, vec['cfg'], only=(vec['kind'], vec['iso']))
         elif vec.get('history'):
             if not done_hist:
                 run_histories(ctx, 8)
